@@ -80,6 +80,7 @@ def run(ck, module=("Properties_C01", "Properties_C01b", "Properties_SrcIO", "Sr
     report_whole_source(ck, whole_source_runs(ck, lines + l2, dict(impl, **impl2)), "C01")
     if big:
         production_runs(ck)
+        production_scale(ck)     # 40 MiB and > 4 GiB round trips with the production constants (shared with C02/C05/C08/C11/C12, cached per source hash)
     if not finish:
         return
     return finish_proof(ck, rule=("every length 0..%d" % (5 * CH + 1) if big else "150 cases, lengths k*chunk+{-17..1} and block boundaries first") +
